@@ -36,27 +36,27 @@ Definition is_domain_or_subdomain (sub parent : string) : bool :=
   String.eqb sub parent
   || (negb (mem_byte ":" sub || mem_byte "%" sub) && dot_suffix sub parent).
 
-Definition should_copy (initial dest : url) : bool :=
-  is_domain_or_subdomain (hostname (u_host dest)) (hostname (u_host initial)).
-
-(* the Host of the initial request's URL: http.NewRequest removes an empty port *)
+(* the Host of the initial request's URL: http.NewRequest removes an empty port ("host:") *)
 Definition req_host (h : string) : string :=
   match cut_last ":" h with
   | Some (x, EmptyString) => x
   | _ => h
   end.
 
+(* shouldCopyHeaderOnRedirect; [ih] = reqs[0].URL.Host *)
+Definition should_copy (ih : string) (dest : url) : bool :=
+  is_domain_or_subdomain (hostname (u_host dest)) (hostname ih).
+
 (* one chain of redirects: for each hop, whether the sensitive headers of the initial request
    are copied to it *)
-Fixpoint follow (initial : url) (stripped : bool) (hops : list url) : list bool :=
+Fixpoint follow (ih : string) (stripped : bool) (hops : list url) : list bool :=
   match hops with
   | [] => []
   | d :: t =>
-      let stripped' :=
-        stripped || (negb (String.eqb (req_host (u_host initial)) (u_host d)) && negb (should_copy initial d)) in
-      negb stripped' :: follow initial stripped' t
+      let stripped' := stripped || (negb (String.eqb ih (u_host d)) && negb (should_copy ih d)) in
+      negb stripped' :: follow ih stripped' t
   end.
 
 (* the requests of one Get: the first hop with what Helm attached, then the follow-ups *)
 Definition hop_auths (initial : url) (auth : option cred) (hops : list url) : list (option cred) :=
-  map (fun keep : bool => if keep then auth else None) (follow initial false hops).
+  map (fun keep : bool => if keep then auth else None) (follow (req_host (u_host initial)) false hops).
